@@ -158,7 +158,9 @@ def run(ctx, res):
     anchors = [b'if (a) if (b) c=1 d=2\ne=3\nf=4\n', b'if (a) b=1\nc=2\n', b'if (a) b=1 else c=2\nd=3', b'if (a) b=1', b'if (a) b=1 -- c\nd=1',
                b'function f()\nif (a) if (b) c=1\ne=3\nend\n', b'if (a) b=1 else if (c) d=1\ne=2\n', b'if (a) else x=1\ny=2', b'if (a) x=1 else\ny=2',
                b'if (a) return\nx=1', b'if (a)--[[\n]] b=1\nc=2', b'a=1;;;b=2', b'a=b=c\n', b'a |= 1\n', b'?x,y\n', b'x=()', b'(f or g)(x)\n',
-               b'a = (b or c).d\n', b'a=("s"):rep(2)\n', b'if (a) do b=1 end', b'if (a) then b=1 end', b'f{1}"x"[[y]]\n', b't={,}', b'']
+               b'a = (b or c).d\n', b'a=("s"):rep(2)\n', b'if (a) do b=1 end', b'if (a) then b=1 end', b'f{1}"x"[[y]]\n', b't={,}', b'',
+               b'if #f(x) y=1\n', b'if (a)+f(x) y=1\n', b'if -(x) y=1\n', b'if f(x) y=1\n', b'if not (x) y=1\n', b'if (a) or (b) y=1\nz=2\n',
+               b'if t[(i)] y=1\n', b'if (a).b(c) y=1\n']
     for a in anchors:
         check_program(res, a, None, batch, 'anchor')
     for _ in range(ctx.budget(400, 8000)):
